@@ -1254,7 +1254,14 @@ func runCSM(prop string, r *common.Rand, tier string, o *common.Out, replay stri
 		c06Codec(o, "replay", protocol.SerializeType(sr), nf)
 		return
 	}
+	if strings.HasPrefix(replay, "real|") {
+		c06Real(o, "replay", strings.TrimPrefix(replay, "real|"))
+		return
+	}
 	if replay == "" && prop == "C06" {
+		for i, so := range []string{"", "async", "pool", "async+pool"} {
+			c06Real(o, fmt.Sprintf("%s-real%d", prop, i), so)
+		}
 		c06xAll(o, prop)
 		k := 0
 		for _, ser := range []protocol.SerializeType{protocol.JSON, protocol.MsgPack} {
